@@ -77,6 +77,7 @@ class Trace(object):
     def _choose(self, text):
         if self.no_fork:
             self.decisions.append((text, True))
+            self.nofork_defaults = getattr(self, 'nofork_defaults', 0) + 1
             return True
         if self.pos < len(self.script):
             out = self.script[self.pos]
@@ -559,6 +560,16 @@ class Interp(object):
         raise _Return(self.eval(st.value, env) if st.value is not None else None)
 
     def st_If(self, st, env):
+        if self.trace.no_fork:
+            # 'collect everything' mode: a test that this path cannot decide admits its body whatever its polarity
+            # (`if not t > 1:` must be treated like `if t <= 1:`)
+            n0 = getattr(self.trace, 'nofork_defaults', 0)
+            v = self.truth(self.eval(st.test, env))
+            if v or getattr(self.trace, 'nofork_defaults', 0) > n0:
+                self.exec_block(st.body, env)
+            else:
+                self.exec_block(st.orelse, env)
+            return
         if self.truth(self.eval(st.test, env)):
             self.exec_block(st.body, env)
         else:
